@@ -32,7 +32,7 @@ def parse_case(line):
     ns = int(t[1])
     cfgs = [tuple(int(x) for x in t[2 + 6 * k: 8 + 6 * k]) for k in range(ns)]
     i = 2 + 6 * ns
-    ar = {"A": 1, "W": 1, "S": 6, "T": 0, "K": 2, "P": 3, "R": 2, "N": 4, "X": 3, "Q": 0}
+    ar = {"A": 1, "W": 1, "S": 6, "T": 0, "K": 2, "P": 3, "R": 2, "N": 4, "D": 2, "Q": 0}
     ev = []
     while i < len(t):
         n = ar.get(t[i])
@@ -125,7 +125,8 @@ def impl_oracle(line, out):
     fog = set()     # keys (sess, mid) whose messages the trace can no longer tell apart
     closed = []
     relaxed = False
-    stats = {"retx": 0, "acked": 0, "rst": 0, "giveup": 0, "sent": 0}
+    stats = {"retx": 0, "acked": 0, "rst": 0, "giveup": 0, "sent": 0, "disc": 0}
+    dead = set()
     now = 0
     last_tick = None
     last_wait = 0
@@ -164,6 +165,43 @@ def impl_oracle(line, out):
                 now = max(now, last_tick + last_wait + int(e[1]))
             continue
         fired = its
+        if k in ("S", "K", "P", "R", "N") and int(e[1]) % ns in dead:
+            if its:
+                problems.append("event on a disconnected session produced %s" % [i[1] for i in its])
+            continue
+        if k == "D":
+            # coap_session_disconnected: every pending message of the session ends with exactly one
+            # NACK call carrying the given reason; nothing pending: one call without PDU, mid 0
+            s, reason = int(e[1]) % ns, int(e[2])
+            if s in dead:
+                continue
+            dead.add(s)
+            foggy = any(key[0] == s for key in fog)
+            want = sorted(r["mid"] for key, v in live.items() if key[0] == s for r in v)
+            got = []
+            for it in its:
+                if it[1] != "nk":
+                    problems.append("disconnect produced %s" % it[1])
+                    continue
+                t, s2, r2, m2, has = [int(x) for x in it[2]]
+                if (t, s2, r2) != (now, s, reason):
+                    problems.append("disconnect NACK reports %s, expected t=%d sess=%d reason=%d" % (it[2], now, s, reason))
+                if has:
+                    got.append(m2)
+                elif want or m2 != 0:
+                    problems.append("disconnect: NACK without PDU (mid %d) although %s pending" % (m2, want))
+            if not foggy:
+                if sorted(got) != want:
+                    problems.append("disconnect of session %d: NACK calls for mids %s, pending were %s" % (s, sorted(got), want))
+                if not want and len(its) != 1:
+                    problems.append("disconnect of an idle session: %d NACK calls" % len(its))
+            for key in [key for key in live if key[0] == s]:
+                for r in live.pop(key):
+                    r["out"] = "disc"
+                    closed.append(r)
+                    stats["disc"] += 1
+            fog = {key for key in fog if key[0] != s}
+            continue
         if k == "S":
             s, mid, code = int(e[1]) % ns, int(e[2]), int(e[3])
             stats["sent"] += 1
@@ -463,6 +501,8 @@ def main(run):
         gens.append(G.gen_nstart1_case(r))
     for _ in range(n_long):
         gens.append(G.gen_long_case(r))
+    for _ in range(400 if quick else 15000):
+        gens.append(G.gen_cancel_case(r))
     for _ in range(40 if quick else 1000):
         gens.append(G.gen_separate_case(r))
     for c in gens:
@@ -472,7 +512,7 @@ def main(run):
     run.cov["driver_crashes"] = len(crashes)
     nbad = 0
     oracle_self = []
-    agg = {"retx": 0, "acked": 0, "rst": 0, "giveup": 0, "sent": 0, "pending_at_end": 0}
+    agg = {"retx": 0, "acked": 0, "rst": 0, "giveup": 0, "sent": 0, "disc": 0, "pending_at_end": 0}
     for i, ln in enumerate(lines):
         mo, co = om[i], oc[i]
         c = cases[i][0]
@@ -480,7 +520,8 @@ def main(run):
         probs, facts = impl_oracle(ln, co) if not co.startswith(("CRASH", "ERROR", "<")) else (["driver: " + co[:80]], {})
         for k in agg:
             agg[k] += facts.get(k, 0)
-        nontriv = facts.get("retx", 0) >= 1 and (facts.get("acked", 0) + facts.get("rst", 0) + facts.get("giveup", 0)) >= 1
+        nontriv = facts.get("retx", 0) >= 1 and (facts.get("acked", 0) + facts.get("rst", 0) +
+                                                 facts.get("giveup", 0) + facts.get("disc", 0)) >= 1
         run.count(ln, nontriv)
         run.hist("kind", kind)
         run.hist("sessions", ln.split()[1])
